@@ -56,8 +56,8 @@ def captured_state(ck):
     for c in F.fns.values():
         if c.cls == LM and c.d.get("kind") == "ctor":
             for i in c.inits:
-                if isinstance(i.get("e"), dict) and any(is_amb(x) for x in walk(i["e"])) and i.get("field"):
-                    sampled.append(i["field"].split("::")[-1])
+                if isinstance(i.get("e"), dict) and any(is_amb(x) for x in walk(i["e"])) and (i.get("member") or i.get("field")):
+                    sampled.append((i.get("member") or i.get("field")).split("::")[-1])
     ck.require(len(set(sampled)) >= 3, "fewer than 3 LogMessage members are sampled from the thread / clock at construction (time, steady time, thread id were confirmed by hand): %s" % sorted(set(sampled)))
     getters = sorted([f for f in F.fns.values() if f.cls == LM and f.d.get("kind") == "method" and f.d.get("constm") and f.body is not None], key=lambda f: f.sig)
     ck.require(len(getters) >= 12, "only %d const accessors of LogMessage found (17 confirmed by hand)" % len(getters))
